@@ -1739,18 +1739,11 @@ def _unparenthesize_grouping(self: fst.FST, shared: bool | None = True, *, star_
         self._put_src(None, end_ln, end_col, pend_ln, pend_col, True, self)
         self._put_src(None, pln, pcol, ln, col, False)
 
-    else:  # in all other case we need to make sure par is not separating us from an alphanumeric on either side, and if so then just replace that par with a space
-        if pend_col >= 2 and _re_par_close_alnums.match(l := lines[pend_ln], pend_col - 2):
-            lines[pend_ln] = bistr(l[:pend_col - 1] + ' ' + l[pend_col:])
-        else:
-            self._put_src(None, end_ln, end_col, pend_ln, pend_col, True, self)
-
-        if pcol and _re_par_open_alnums.match(l := lines[pln], pcol - 1):
-            lines[pln] = bistr(l[:pcol] + ' ' + l[pcol + 1:])
-        else:
-            self._put_src(None, pln, pcol, ln, col, False)
-
-        self._touch()  # a parenthesis replaced by a space moves nothing, so nothing else flushed our cached `pars()`
+    else:  # in all other case remove the parentheses and then make sure that did not join us to an alphanumeric on either side, and if so then separate with a space
+        self._put_src(None, end_ln, end_col, pend_ln, pend_col, True, self)
+        self._put_src(None, pln, pcol, ln, col, False)
+        self._touch()
+        self._fix_joined_alnums(*self.bloc, lines=lines)  # done through normal puts so that parents which started or ended at a parenthesis get the right location
 
     return True
 
